@@ -33,7 +33,11 @@ for p in props:
         'level_claimed': {
             'category': getattr(mod, 'LEVEL', 'exploration'),
             'text': getattr(mod, 'LEVEL_TEXT', (
-                'runtime monitoring of the real code: ' + mod.RULE)),
+                'runtime monitoring of the real code: ' + mod.RULE
+                + '.  Deterministic blocks added after the seeded rounds '
+                '(DESIGN.md 10.4-10.15) are part of both tiers; each has a '
+                'counter with a floor in the evidence file (' + ', '.join(
+                    sorted(getattr(mod, 'FLOORS', {}))[:40]) + ')')),
             'design_ref': f'DESIGN.md section 5, {pid}',
         },
         'level_note': getattr(mod, 'LEVEL_NOTE', '; '.join(
